@@ -68,3 +68,17 @@ Definition ua_keep (from : key) (h : handle) (a : upd_acc) : upd_acc :=
   {| ua_kept := ua_kept a ++ [(from, h)]; ua_closed := ua_closed a |}.
 Definition ua_close (h : handle) (a : upd_acc) : upd_acc :=
   {| ua_kept := ua_kept a; ua_closed := ua_closed a ++ [h] |}.
+
+(* ---- internal/callbacks.OnWithStreamHandle *)
+(* cpy(n) = StreamReader.Copy(n) (streamReader.copy for the graph-level sites): the stream itself for
+   n < 2, otherwise n fresh readers *)
+Definition g_cpy (h : handle) (n : Z) (s : store) : list handle * store := StreamAcct.copy_item h n s.
+
+(* for i, handler := range handlers { ctx = handle(ctx, handler, inOuts[i]) }: the copies handed to the
+   handlers, in order; inOuts[i] out of range panics *)
+Fixpoint g_hand_range {A} (hs : list A) (xs : list handle) : res (list handle) :=
+  match hs, xs with
+  | [], _ => Ok []
+  | _ :: hs', x :: xs' => do r <- g_hand_range hs' xs'; Ok (x :: r)
+  | _ :: _, [] => Panic
+  end.
